@@ -86,8 +86,8 @@ class Collector:
                     txt = re.sub(rf"\b{re.escape(p_)}\b", a_, txt)
                 return txt
             a2, p2, t2, f2 = self.effective(hh, seen + (hname,))
-            adds += [(sn, subst(e), g) for sn, e, g in a2]
-            prov += [(subst(k), lab, g) for k, lab, g in p2]
+            adds += [(sn, subst(e), subst(g)) for sn, e, g in a2]
+            prov += [(subst(k), lab, subst(g)) for k, lab, g in p2]
             tall = tall or t2
             tf |= f2
         for d in h.delegates:
@@ -161,6 +161,11 @@ class Collector:
             for setname, expr, guard in adds:
                 if setname != "assigned":
                     continue
+                # the bound name is never None here: a guard `<expr> is None` / `not (<expr> is not None)` means "not recorded"
+                g = guard.replace(" ", "")
+                e = expr.replace(" ", "")
+                if f"{e}isNone" in g or f"not({e}isnotNone)" in g:
+                    continue
                 if tcls == "Name" and "isinstance(node.ctx, ast.Load)" in guard and not guard.startswith("not ("):
                     continue         # the Load branch
                 recorded = True
@@ -168,5 +173,10 @@ class Collector:
                 for key, label, g in provs:
                     if key == expr:
                         prov = label
+        if rid == "import-dotted" and recorded and h is not None:
+            # `import a.b` binds `a`: the handler must reduce the alias name to its first component
+            if not any(isinstance(n, ast.Call) and isinstance(n.func, ast.Attribute) and n.func.attr == "split" and n.args and isinstance(n.args[0], ast.Constant)
+                       and n.args[0].value == "." for hh in [h] + [self.handlers[d] for d in h.delegates if d in self.handlers] for n in ast.walk(hh.fn)):
+                recorded, via = False, (via or "") + " (the dotted module path is recorded instead of its first component)"
         return {"recorded": recorded and blocked is None, "provenance": prov if recorded and blocked is None else None,
                 "blocked_by": blocked, "via": via, "handler": h.name if h else None, "class": tcls}
